@@ -82,26 +82,28 @@ def rule_grammar(ctx):
     ax = prog.one('BlockchainRead::read_aux_pow_extension')
     ctx.touch(ax)
     items, labels = wire.grammar(ax)
-    seq = [(i[1], i[4], i[5], i[6]) for i in wire.shape(items)]
-    exp = [('read_tx', ['a2'], [], []), ('read_256hash', [], [], []), ('read_merkle_branch', [], [], []),
-           ('read_merkle_branch', [], [], []), ('read_block_header', [], [], [])]
-    ctx.check('grammar', 'section=tx,h32,branch,branch,header', seq == exp, ax, 'AuxPoW section = %s' % [s[0] for s in seq],
-              bad_detail='AuxPoW section reads %s; the merged-mining spec says coinbase tx, parent hash, coinbase branch, blockchain branch, parent header' % [s[0] for s in seq])
+    # The section is skipped, not interpreted: what must be right is the number of bytes consumed.
+    # So the *multiset* of items is compared, not their order (each item is self-delimiting or fixed-size).
+    seq = sorted((i[1], tuple(i[4]), tuple(i[5]), tuple(i[6])) for i in wire.shape(items))
+    exp = sorted([('read_tx', ('a2',), (), ()), ('read_256hash', (), (), ()), ('read_merkle_branch', (), (), ()),
+                  ('read_merkle_branch', (), (), ()), ('read_block_header', (), (), ())])
+    ctx.check('grammar', 'section={tx,h32,branch,branch,header}', seq == exp, ax, 'AuxPoW section consumes %s' % [s[0] for s in seq],
+              bad_detail='AuxPoW section consumes %s; the merged-mining spec has one coinbase tx, one parent hash, two merkle branches and one parent header (each unconditional, none in a loop)' % [(s[0], s[2], s[3]) for s in seq])
     mb = prog.one('BlockchainRead::read_merkle_branch')
     ctx.touch(mb)
     items, labels = wire.grammar(mb)
-    seq = [(i[1], i[2], i[4], i[5]) for i in wire.shape(items)]
-    ctx.check('grammar', 'branch=count,then-mask-u32le', seq == [('read_from', None, [], []), ('read_u32', 'LittleEndian', [], [])], mb, 'merkle branch outer reads %s' % seq)
+    seq = sorted((i[1], i[2], tuple(i[4]), tuple(i[5])) for i in wire.shape(items))
+    ctx.check('grammar', 'branch={count,mask-u32le}', seq == sorted([('read_from', None, (), ()), ('read_u32', 'LittleEndian', (), ())]), mb, 'merkle branch outer reads %s' % seq)
     ret = canon(mb.ret_expr(), labels=labels)
-    ctx.check('grammar', 'branch-hashes-bound-by-count', 'new(collect(map(Range::Range{start: 0, end: read_from#0(self)?.value}, closure:{closure#0}))?, read_u32#1(self)?)' in ret, mb, 'hashes = (0..count).map(read_256hash)')
+    cnt = [i[0] for i in items if i[1] == 'read_from']
+    okb = bool(cnt) and 'collect(map(Range::Range{start: 0, end: read_from#%s(self)?.value}, closure:{closure#0}))?' % cnt[0] in ret
+    ctx.check('grammar', 'branch-hashes-bound-by-count', okb, mb, 'hashes = (0..count).map(read_256hash)')
     cl = prog.one('BlockchainRead::read_merkle_branch::{closure#0}')
     ctx.touch(cl)
     cr = [c for c in cl.calls if wire.is_read(c)]
-    ctx.check('grammar', 'branch-item=h32', len(cr) == 1 and mir.method_name(cr[0].name) == 'read_256hash', cl, 'each branch item is one 32-byte hash')
-    # hashes are read before the mask (collect `?` dominates the mask read)
+    ctx.check('grammar', 'branch-item=h32', len(cr) == 1 and mir.method_name(cr[0].name) == 'read_256hash' and cl.loop_depth(cr[0].bb) == 0, cl, 'each branch item is one 32-byte hash')
     coll = [c for c in mb.calls if mir.method_name(c.name) == 'collect']
-    mask = [c for c in mb.calls if mir.method_name(c.name) == 'read_u32']
-    ctx.check('grammar', 'hashes-before-mask', len(coll) == 1 and len(mask) == 1 and mb.dominates(coll[0].bb, mask[0].bb), mb, 'collect(...) dominates the side-mask read')
+    ctx.check('grammar', 'all-hashes-read', len(coll) == 1 and util.result_is_consumed(mb, coll[0]) and 'rayon' not in coll[0].name, mb, 'the hash loop is driven to completion (collect + ?)')
     h = prog.one('BlockchainRead::read_256hash')
     ctx.touch(h)
     ex = [c for c in h.calls if mir.method_name(c.name) == 'read_exact']
